@@ -50,6 +50,9 @@ type Exec struct {
 	Obls  []*Obligation
 	loops map[*ssa.Function]map[*ssa.BasicBlock]*Loop
 	init  *State // entry state (for old())
+	giInit map[*Clause]string // global invariants as assumed at entry
+	giNorm *State
+	giNormFor *State
 	params map[string]Value
 	nStates int
 	MaxStates int
@@ -333,6 +336,24 @@ func (x *Exec) initialState() *State {
 		v := x.symbolicInput("fv."+fv.Name(), fv.Type(), st)
 		f.Regs[fv] = v
 	}
+	// the package initialiser starts from zeroed package-level variables
+	if x.Fn.Name() == "init" && x.Fn.Pkg != nil {
+		var names []string
+		for n, m := range x.Fn.Pkg.Members {
+			if _, ok := m.(*ssa.Global); ok && !strings.HasPrefix(n, "init$") {
+				names = append(names, n)
+			}
+		}
+		sort.Strings(names)
+		for _, n := range names {
+			g := x.Fn.Pkg.Members[n].(*ssa.Global)
+			el := g.Type().(*types.Pointer).Elem()
+			v := x.load(st, x.globalPtr(g), false)
+			if v.Term != "" && v.Ptr == nil {
+				st.Assume(Eq(v.Term, x.TM.Zero(el)))
+			}
+		}
+	}
 	// snapshot for old()
 	x.init = st.clone()
 	// axioms and global invariants of the contract's package
@@ -439,6 +460,14 @@ func (x *Exec) runBlock(st *State, b *ssa.BasicBlock, pred *ssa.BasicBlock) {
 		}
 		if !x.loopEntry(st, fn, l) {
 			return
+		}
+	}
+	if pred != nil && x.FC != nil && len(x.FC.Asserts) > 0 {
+		// leaving a loop normally (condition false or break, not return/panic): anchor "after loop K"
+		for _, l := range x.loopsOf(fn) {
+			if l.Body[pred] && !l.Body[b] && b != l.Head && (strings.HasPrefix(b.Comment, "for.done") || strings.HasPrefix(b.Comment, "range") && strings.HasSuffix(b.Comment, ".done")) {
+				x.anchors(st, "after loop "+x.loopKey(fn, l), nil)
+			}
 		}
 	}
 	st.Trace = append(st.Trace, fmt.Sprintf("%s:%d", fn.Name(), b.Index))
@@ -631,7 +660,8 @@ func (x *Exec) globalPtr(g *ssa.Global) Value {
 	ref := x.D.Const(name, SInt)
 	x.D.Axiom(fmt.Sprintf("(< %s 0)", ref))
 	// unexported error sentinels of the repository: private objects no dependency can return
-	if types.TypeString(elem, nil) == "error" && !g.Object().Exported() && x.P.IsRepoPkg(g.Pkg.Pkg.Path()) && !x.P.MutGlobals[g] {
+	inOwnInit := strings.HasPrefix(x.Fn.Name(), "init") && x.Fn.Pkg == g.Pkg // the initialiser is what sets it: still zero at entry
+	if types.TypeString(elem, nil) == "error" && !g.Object().Exported() && x.P.IsRepoPkg(g.Pkg.Pkg.Path()) && !x.P.MutGlobals[g] && !inOwnInit {
 		key := x.TM.Key(elem)
 		arr := x.D.Const(x.TM.CellArray(key)+"@0", fmt.Sprintf("(Array Int %s)", SIface))
 		f := x.D.Fun("spec.RepoPrivateSentinel", []string{SIface}, SBool)
@@ -1270,6 +1300,14 @@ func smallConst(t string) (int, bool) {
 
 // equal builds the equality of two values of the same Go type.
 func (x *Exec) equal(st *State, a, b Value, ins ssa.Instruction) string {
+	if ins != nil && a.Typ != nil && isTime(a.Typ) && a.Term != b.Term {
+		// Go's == on time.Time compares wall clock, monotonic reading and *Location, not the instant: equal structs
+		// denote the same instant, but the same instant may be held by unequal structs (other zone, monotonic part)
+		r := x.D.Fresh("timeStructEq", SBool)
+		st.Assume(Implies(r, Eq(a.Term, b.Term)))
+		x.Assumptions["== on time.Time values is under-determined: implies the same instant, not implied by it"] = true
+		return r
+	}
 	if a.Ptr != nil || b.Ptr != nil {
 		// engine pointers: compare structurally when possible
 		if a.Ptr != nil && b.Ptr != nil {
@@ -1716,10 +1754,14 @@ func (x *Exec) assumeBackground(st *State) {
 		if x.Fn.Name() == "init" && x.Fn.Pkg != nil && cf.PkgPath == x.Fn.Pkg.Pkg.Path() {
 			continue
 		}
-		for _, c := range cf.GlobalInv {
+		for gi, c := range cf.GlobalInv {
 			env := &Env{x: x, st: st, old: st, vars: map[string]Value{}, cf: cf}
 			g := x.evalBool(env, c.E, c)
 			x.D.giSet[g] = true
+			if x.giInit == nil {
+				x.giInit = map[*Clause]string{}
+			}
+			x.giInit[&cf.GlobalInv[gi]] = g
 			st.Assume(g)
 		}
 	}
